@@ -97,16 +97,44 @@ func needles(it secretItem) []needle {
 	return ns
 }
 
-// knownClass decides from the configuration (and the flag/channel a leak concerns) whether a leak
-// falls in a recorded defect class of the unchanged tree.
-func knownClass(c *Case, flag, channel string) string {
+// knownClass decides from the configuration (and the flag/entry/channel a leak concerns) whether a
+// leak falls in a recorded defect class of the unchanged tree.
+func knownClass(c *Case, it secretItem, channel string) string {
+	flag := it.Flag
 	// F31: configureHTTPS logs CertFile/KeyFile verbatim at debug level (http_proxy.go),
 	// so a data: URI given to --tls-cert-file/--tls-key-file is printed in full.
 	if c.Level == "debug" && channel == "startup-log" && c.TLSCert != "none" &&
 		((flag == "tls-cert-file" && strings.HasPrefix(c.TLSCert, "data")) || (flag == "tls-key-file" && strings.HasPrefix(c.TLSKey, "data"))) {
 		return "tls-data-uri-debug-log"
 	}
+	if c.Kind != "startfail" {
+		return ""
+	}
+	// F43: a value that the flag's parser rejects is echoed with %q in the usage error: pflag's
+	// "invalid argument %q for %q flag" (printed by cobra on stderr, copied to /dev/termination-log
+	// by cmd/forwarder) for a command-line flag, utils/cobrautil/bind.go for FORWARDER_* variables
+	// and config-file entries (there the whole variable / the whole list is echoed).
+	if flag == rejectedFlag(c) && (channel == "stderr" || channel == "termination-log") &&
+		(sourceOf(c, flag) != "flag" || !sliceFlag(flag) || it.Index == c.FaultIndex) {
+		return "rejected-flag-value-echoed"
+	}
+	// F44: loadRootCAs (tls.go) reports a --cacert-file value that holds no PEM certificate as
+	// `append certificate %q`: the data: URI is printed in the fatal log line and the termination log.
+	if c.StartFault == "cacert-not-pem" && flag == "cacert-file" && it.Index == c.FaultIndex &&
+		(channel == "startup-log" || channel == "termination-log") {
+		return "cacert-data-uri-fatal-log"
+	}
 	return ""
+}
+
+func sliceFlag(flag string) bool { return flag == "credentials" || flag == "cacert-file" }
+
+// sourceOf says how a flag reaches the process (cases written by hand may leave it out: command line).
+func sourceOf(c *Case, flag string) string {
+	if s := c.Source[flag]; s == "env" || s == "file" {
+		return s
+	}
+	return "flag"
 }
 
 type channelText struct {
@@ -131,7 +159,16 @@ func channels(o *observation) []channelText {
 	for i, r := range o.OK {
 		cs = append(cs, channelText{fmt.Sprintf("ok-response/%d", i), r.Dump, false})
 	}
-	return cs
+	// the fault phase (faults.go): what the client receives, and what the proxy logs about exchanges
+	// that fail because the peer the credentials are for misbehaves; the header dumps of
+	// --log-http errors are kept apart
+	for _, f := range o.Faults {
+		cs = append(cs, channelText{"error-response/fault/" + f.Label, f.Dump, true})
+	}
+	return append(cs,
+		channelText{"fault-phase-log", o.FaultLog, true},
+		channelText{"fault-phase-log/racy", o.FaultLogRacy, true},
+		channelText{"fault-phase-http-dump", o.FaultDumps, false})
 }
 
 func snippet(text string, at, n int) string {
@@ -145,17 +182,16 @@ func snippet(text string, at, n int) string {
 	return short(text[lo:hi], 400)
 }
 
-// scan looks for every secret of the run in every channel.
-func scan(ctx *core.Ctx, c *Case, k int, o *observation, p *plan) {
-	chs := channels(o)
+// distinctNeedles lists, per secret of the plan, the forms it is looked for under. A form that also
+// occurs inside another secret of the same run (constant PEM framing, shared certificate fields)
+// cannot be attributed to one flag and is dropped.
+func distinctNeedles(p *plan) [][]needle {
 	all := make([][]needle, len(p.Secrets))
 	for i, it := range p.Secrets {
 		all[i] = needles(it)
 	}
-	for i, it := range p.Secrets {
-		// a form that also occurs inside another secret of the same run (constant PEM framing,
-		// shared certificate fields) cannot be attributed to this flag: drop it
-		var ns []needle
+	out := make([][]needle, len(p.Secrets))
+	for i := range p.Secrets {
 		for _, n := range all[i] {
 			distinct := true
 			for j, other := range p.Secrets {
@@ -172,9 +208,22 @@ func scan(ctx *core.Ctx, c *Case, k int, o *observation, p *plan) {
 				}
 			}
 			if distinct {
-				ns = append(ns, n)
+				out[i] = append(out[i], n)
 			}
 		}
+	}
+	return out
+}
+
+// scan looks for every secret of the run in every channel.
+func scan(ctx *core.Ctx, c *Case, k int, o *observation, p *plan) {
+	scanChannels(ctx, c, k, channels(o), p)
+}
+
+func scanChannels(ctx *core.Ctx, c *Case, k int, chs []channelText, p *plan) {
+	all := distinctNeedles(p)
+	for i, it := range p.Secrets {
+		ns := all[i]
 		for _, ch := range chs {
 			if ch.Text == "" {
 				continue
@@ -186,6 +235,9 @@ func scan(ctx *core.Ctx, c *Case, k int, o *observation, p *plan) {
 					continue
 				}
 				if !ch.Covered {
+					if os.Getenv("C19_DUMP_OUTSIDE") != "" {
+						fmt.Fprintf(os.Stderr, "outside-property %s --%s %s: %s\n", ch.Name, it.Flag, n.Enc, snippet(ch.Text, at, len(n.Text)))
+					}
 					ctx.Count("outside-property/" + strings.SplitN(ch.Name, "/", 2)[0] + "/" + it.Flag + "/log-http=" + c.LogHTTP)
 					break
 				}
@@ -193,10 +245,10 @@ func scan(ctx *core.Ctx, c *Case, k int, o *observation, p *plan) {
 				if it.PEM != nil {
 					what = "data: payload"
 				}
-				ctx.SpecFail("secret absent from "+ch.Name, knownClass(c, it.Flag, ch.Name), c,
+				ctx.SpecFail("secret absent from "+ch.Name, knownClass(c, it, ch.Name), c,
 					snippet(ch.Text, at, len(n.Text)),
-					fmt.Sprintf("%s of --%s (given as %s, entry %d, secret assignment %d) appears in %s, encoding %s; log-level=%s log-format=%s log-http=%s",
-						what, it.Flag, c.Source[it.Flag], it.Index, k, ch.Name, n.Enc, c.Level, c.Format, c.LogHTTP))
+					fmt.Sprintf("%s of --%s (given as %s, entry %d, secret assignment %d) appears in %s, encoding %s; log-level=%s log-format=%s log-http=%s%s",
+						what, it.Flag, sourceOf(c, it.Flag), it.Index, k, ch.Name, n.Enc, c.Level, c.Format, c.LogHTTP, startFaultNote(c)))
 				break // one finding per (secret, channel)
 			}
 		}
@@ -232,6 +284,7 @@ func compareModel(ctx *core.Ctx, c *Case, k int, o *observation, p *plan) {
 			ctx.Disagree("start-up log has the 'all configuration:' line at debug level", c, short(o.Startup, 300), "present")
 		}
 	}
+	compareUpstreamURL(ctx, c, k, recs, p)
 	set := map[string]setting{}
 	for _, st := range p.Settings {
 		set[st.Flag] = st
@@ -276,30 +329,101 @@ func compareModel(ctx *core.Ctx, c *Case, k int, o *observation, p *plan) {
 	}
 }
 
+// compareUpstreamURL checks the url attribute of the "using upstream proxy" start-up line against
+// Model.C19.upstreamLogURL where the credentials the proxy URL ends up with are unambiguous: its own
+// userinfo, or the --credentials entry written for exactly its host:port.
+func compareUpstreamURL(ctx *core.Ctx, c *Case, k int, recs []record, p *plan) {
+	if c.Level == "error" || c.Upstream == "none" {
+		return
+	}
+	ui := func(u UserPub, pw string) string {
+		if u.HasPass {
+			return "p:" + core.HexS(u.User) + ":" + core.HexS(pw)
+		}
+		return "u:" + core.HexS(u.User)
+	}
+	own, cred := "-", "-"
+	switch c.Upstream {
+	case "userinfo":
+		own = ui(*c.UpstreamUser, c.Secrets[k].Proxy)
+	case "credentials":
+		for i, cr := range c.Creds {
+			if cr.Target == "upstream" && cr.Pattern == "exact" {
+				cred = ui(cr.User, c.Secrets[k].Creds[i])
+			}
+		}
+		if cred == "-" {
+			return
+		}
+	default:
+		return
+	}
+	scheme := "http"
+	if c.UpstreamTLS {
+		scheme = "https"
+	}
+	ans := ctx.Model.MustAsk("C19", "upstreamurl", core.HexS(scheme), core.HexS(p.UpstreamAddr), own, cred)
+	want := string(core.MustUnHex(strings.TrimPrefix(ans, "ok ")))
+	got, seen := "", false
+	for _, r := range recs {
+		if r.Msg == "using upstream proxy" {
+			got, seen = r.Attrs["url"], true
+		}
+	}
+	switch {
+	case !seen:
+		ctx.Disagree("start-up log has the 'using upstream proxy' line at info level", c, "absent", want)
+	case !strings.HasPrefix(ans, "ok ") || got != want:
+		ctx.Disagree("url of the 'using upstream proxy' line = Model.C19.upstreamLogURL", c, got, ans+" = "+want)
+	default:
+		ctx.TraceValidated()
+	}
+}
+
 // ---- two runs that differ only in the secrets ----
 
 var (
-	reTimeText = regexp.MustCompile(`time=\S+`)
-	reTimeJSON = regexp.MustCompile(`"time":"[^"]*"`)
-	reDurText  = regexp.MustCompile(`(duration|period|elapsed)=("[^"]*"|\S+)`)
-	reDurJSON  = regexp.MustCompile(`"(duration|period|elapsed)":("[^"]*"|[0-9.e+-]+)`)
-	reLoopPort = regexp.MustCompile(`127\.0\.0\.1:(\d+)`)
-	reDate     = regexp.MustCompile(`(?m)^Date: .*$`)
-	reIDText   = regexp.MustCompile(`\b(id|trace|trace_id|request_id)=("[^"]*"|\S+)`)
-	reIDJSON   = regexp.MustCompile(`"(id|trace|trace_id|request_id)":"[^"]*"`)
-	reBracket  = regexp.MustCompile(`\[[0-9a-f]{4,}(?:-[0-9a-f]+)*\]`)
+	reTimeText      = regexp.MustCompile(`time=\S+`)
+	reTimeJSON      = regexp.MustCompile(`"time":"[^"]*"`)
+	reDurText       = regexp.MustCompile(`(duration|period|elapsed)=("[^"]*"|\S+)`)
+	reDurJSON       = regexp.MustCompile(`"(duration|period|elapsed)":("[^"]*"|[0-9.e+-]+)`)
+	reLoopPort      = regexp.MustCompile(`127\.0\.0\.1:(\d+)`)
+	reDate          = regexp.MustCompile(`(?m)^Date: .*$`)
+	reIDText        = regexp.MustCompile(`\b(id|trace|trace_id|request_id)=("[^"]*"|\S+)`)
+	reIDJSON        = regexp.MustCompile(`"(id|trace|trace_id|request_id)":"[^"]*"`)
+	reContentLength = regexp.MustCompile(`(?m)^Content-Length: \d+$`)
+	reBracket       = regexp.MustCompile(`\[[0-9a-f]{4,}(?:-[0-9a-f]+)*\]`)
 )
 
 func canonical(text string, o *observation, g *rig) string {
-	text = strings.ReplaceAll(text, o.Dir, "<DIR>")
 	static := map[string]string{}
-	for name, addr := range map[string]string{"ORIGIN": g.originAddr, "UPSTREAM": g.upstreamAddr, "DEAD": g.deadAddr} {
+	for name, addr := range map[string]string{"ORIGIN-SERVER": g.originAddr, "UPSTREAM-SERVER": g.upstreamAddr, "DEAD": g.deadAddr} {
 		_, p := hostPort(addr)
 		static[p] = name
 	}
+	static[o.OriginPort], static[o.UpstreamPort] = "ORIGIN", "UPSTREAM"
 	static[o.ProxyPort], static[o.APIPort] = "PROXY", "API"
+	return canonicalWith(text, o.Dir, static)
+}
+
+// canonicalWith replaces what differs between two runs of one configuration for reasons other than
+// the secrets: the run directory, ports (static: port → name), timestamps, durations, ids.
+func canonicalWith(text, dir string, static map[string]string) string {
+	text = strings.ReplaceAll(text, dir, "<DIR>")
+	// a port of this run may also stand alone (`*:port` of a credentials entry, port="…" attributes)
+	for _, port := range sortedKeys(static) {
+		if port == "" {
+			continue
+		}
+		re := regexp.MustCompile(`(^|[^0-9A-Za-z.])` + port + `($|[^0-9A-Za-z])`)
+		text = re.ReplaceAllString(text, "${1}<"+static[port]+">${2}")
+		text = re.ReplaceAllString(text, "${1}<"+static[port]+">${2}") // neighbours sharing a separator
+	}
 	text = reLoopPort.ReplaceAllStringFunc(text, func(m string) string {
 		port := m[len("127.0.0.1:"):]
+		if strings.HasPrefix(port, "<") {
+			return m
+		}
 		if n, ok := static[port]; ok {
 			return "127.0.0.1:<" + n + ">"
 		}
@@ -344,10 +468,31 @@ func diffLines(a, b []string) (onlyA, onlyB []string) {
 // leakClass names the recorded defect class that explains a line which differs between the two
 // runs because it carries a secret ("" if none does).
 func leakClass(c *Case, channel, line string, p *plan) string {
+	class, found := "", false
+	all := distinctNeedles(p)
+	for i, it := range p.Secrets {
+		for _, n := range all[i] {
+			if strings.Contains(line, n.Text) {
+				cl := knownClass(c, it, channel)
+				if cl == "" {
+					return "" // a secret that no recorded class explains
+				}
+				class, found = cl, true
+				break
+			}
+		}
+	}
+	if found {
+		return class
+	}
+	// material shared by several flags (the certificate pasted into the key slot as well): any of them
 	for _, it := range p.Secrets {
 		for _, n := range needles(it) {
 			if strings.Contains(line, n.Text) {
-				return knownClass(c, it.Flag, channel)
+				if cl := knownClass(c, it, channel); cl != "" {
+					return cl
+				}
+				break
 			}
 		}
 	}
@@ -368,15 +513,23 @@ func diffRuns(ctx *core.Ctx, c *Case, oa, ob *observation, pa, pb *plan) {
 		{"error-response/407", oa.Resp407.Dump, ob.Resp407.Dump},
 		{"error-response/502", oa.Resp502.Dump, ob.Resp502.Dump},
 		{"error-response/api-401", oa.API401.Dump, ob.API401.Dump},
+		{"fault-phase-log", oa.FaultLog, ob.FaultLog},
+	}
+	for i, fa := range oa.Faults {
+		if i < len(ob.Faults) && fa.Deterministic && ob.Faults[i].Label == fa.Label {
+			// the proxy's own error texts name ports, whose number of digits varies
+			ps = append(ps, pair{"error-response/fault/" + fa.Label, reContentLength.ReplaceAllString(fa.Dump, "Content-Length: <N>"),
+				reContentLength.ReplaceAllString(ob.Faults[i].Dump, "Content-Length: <N>")})
+		}
 	}
 	// Which segment a line falls in depends on timing (a "closed tunnel" debug line may be written
 	// while the next phase already runs), so a line counts as different only if it occurs nowhere
 	// in the other run's log.
 	wholeA, wholeB := map[string]bool{}, map[string]bool{}
-	for _, l := range sortedLines(canonical(oa.Startup+oa.ReqLog+oa.FailLog, oa, g)) {
+	for _, l := range sortedLines(canonical(oa.Startup+oa.ReqLog+oa.FailLog+oa.FaultLog+oa.FaultLogRacy+oa.FaultDumps, oa, g)) {
 		wholeA[l] = true
 	}
-	for _, l := range sortedLines(canonical(ob.Startup+ob.ReqLog+ob.FailLog, ob, g)) {
+	for _, l := range sortedLines(canonical(ob.Startup+ob.ReqLog+ob.FailLog+ob.FaultLog+ob.FaultLogRacy+ob.FaultDumps, ob, g)) {
 		wholeB[l] = true
 	}
 	drop := func(ls []string, other map[string]bool) []string {
@@ -391,7 +544,7 @@ func diffRuns(ctx *core.Ctx, c *Case, oa, ob *observation, pa, pb *plan) {
 	for _, p := range ps {
 		la, lb := sortedLines(canonical(p.a, oa, g)), sortedLines(canonical(p.b, ob, g))
 		onlyA, onlyB := diffLines(la, lb)
-		if p.name == "startup-log" || p.name == "request-log" {
+		if p.name == "startup-log" || p.name == "request-log" || p.name == "fault-phase-log" {
 			onlyA, onlyB = drop(onlyA, wholeB), drop(onlyB, wholeA)
 		}
 		// group the differing lines by the recorded class that explains them
@@ -441,6 +594,10 @@ func transient(o *observation) bool {
 
 // checkCase runs one case: both secret assignments, scans, model comparison, diff.
 func checkCase(ctx *core.Ctx, c *Case) {
+	if c.Kind == "startfail" {
+		checkFailCase(ctx, c)
+		return
+	}
 	var obs [2]*observation
 	var plans [2]*plan
 	for attempt := 0; attempt < 2; attempt++ {
@@ -469,7 +626,16 @@ func checkCase(ctx *core.Ctx, c *Case) {
 				fmt.Fprintf(os.Stderr, "--- ok %d: %d %s %s\n", i, r.Status, r.Err, short(r.Dump, 200))
 			}
 		}
+		if os.Getenv("C19_DUMP") != "" {
+			fmt.Fprintf(os.Stderr, "--- fault log\n%s--- fault log (racy)\n%s--- fault dumps\n%s", o.FaultLog, o.FaultLogRacy, o.FaultDumps)
+			for _, f := range o.Faults {
+				fmt.Fprintf(os.Stderr, "--- fault %s: %s hits=%d auth=%v\n%s\n", f.Label, f.Outcome, f.Hits, f.SawAuth, short(f.Dump, 600))
+			}
+		}
 		scan(ctx, c, k, o, plans[k])
+		if o.Problem == "" {
+			countFaults(ctx, c, o, plans[k])
+		}
 		if o.SlowStop {
 			ctx.Count("killed-20s-after-SIGTERM")
 		}
